@@ -17,6 +17,13 @@ Case kinds
           delayed port checks) are the real recoco Timers, run by the real Scheduler.cycle() on a virtual hub (clock + wake list); the
           probes LLDPSender sends travel over the cables of the topology and come back as PacketIns.  Model: `runT` (the expiry timer
           under the contract of recoco.Timer.run); oracle: links of a silent switch are withdrawn, live links are discovered and stay
+  opts  : (hist and live cases) configuration is an input: `opts` names the documented options of discovery (link_timeout, no_flow, explicit_drop,
+          eat_early_packets) and of spanning_tree (no_flood, hold_down), as the texts a command line hands to launch() (or as Python values for the
+          documented constructor: how = "ctor"), and the order of the two launch() calls (st_first).  Every set of options is its own pair of
+          components ("world"), started through the public launch() on a nexus nobody else of C19 listens on.  The oracle reads the MEANING of the
+          options off the documentation alone (config_of): the configured link timeout; the expiry check period is the documented 5 s; the send cycle is
+          whatever the component derives -- the oracle only demands the outcome (a cable that carries probes is in the adjacency and is never withdrawn,
+          a silent one is gone after timeout + check period).  Model: Cfg / stepOfC / tstepOfC (configured timeout, no_flood); hold_down is oracle only.
 """
 import os, io, json, math, heapq, itertools, copy, contextlib, inspect, select as _select
 import common, poxenv
@@ -199,6 +206,7 @@ class C19(Check):
                 "Pox.C19.calc_terminates", "Pox.C19.link_events", "Pox.C19.event_iff_change", "Pox.C19.in_adjacency_iff_last_added",
                 "Pox.C19.adjacency_exact", "Pox.C19.adjacency_ends_connected", "Pox.C19.down_withdraws", "Pox.C19.sweep_bounds_age",
                 "Pox.C19.timer_never_stops", "Pox.C19.timer_withdraws", "Pox.C19.timed_is_history", "Pox.C19.timed_link_events",
+                "Pox.C19.configured_default_is_model", "Pox.C19.configured_sweep_bounds_age", "Pox.C19.configured_sweep_withdraws_only_silent",
                 "Pox.C19.flood_ports", "Pox.C19.flood_keeps", "Pox.C19.flood_ports_partial", "Pox.C19.flood_ports_forest",
                 "Pox.C19.cable_floods_iff_tree_edge", "Pox.C19.reach_unique",
                 "Pox.C19.port_mods_are_changes", "Pox.C19.send_failure_recovery", "Pox.C19.bits_are_prev", "Pox.C19.flood_bits",
@@ -234,7 +242,13 @@ class C19(Check):
                    "Timer(_timeout_check_period, _expire_links) made by Discovery.__init__ runs under the real Timer.run, and the model (`runT`, theorems timer_never_stops / "
                    "timer_withdraws) fires its own sweeps from the Timer contract -- under an ideal clock: a timer wakes exactly when due; at most 75 ports (no random chunking "
                    "of the send cycle)",
-                   "_hold_down and _noflood_by_default are off (their defaults); in histories con.send never raises (the `except: _prev.clear()` path is modelled and compared for single _update_tree() calls: kind upd, theorem send_failure_recovery)",
+                   "configuration: link_timeout and no_flood are parameters of the model (Cfg; theorem configured_default_is_model: the defaults are the handlers the other "
+                   "theorems speak about); no_flow / explicit_drop / eat_early_packets / the order of the launch() calls are varied and are no inputs of the model (other "
+                   "traffic -- ARP, UDP, foreign LLDP, runts: `data` ops -- is a no-op of the model); hold_down is NOT modelled (ages of connections, a one-shot timer per "
+                   "connect): those histories are judged by the oracle alone, and of the flood clause exactly what the option leaves intact -- it is judged when every "
+                   "connected switch is older than send cycle + 1 s (= link timeout / 2 + 1 s); with no_flood alone nothing is promised for a new switch before the next "
+                   "change of the adjacency, so between a connect and that change the quiet-time flood check is not applied (after every change it is, as always); the "
+                   "adjacency / LinkEvent clauses are judged in full under every option.  In histories con.send never raises (the `except: _prev.clear()` path is modelled and compared for single _update_tree() calls: kind upd, theorem send_failure_recovery)",
                    "a port's NO_FLOOD bit is what the last port_mod on the current connection said; a (re)connecting switch starts with flooding enabled on every port",
                    "cables are point to point (a port is an end of at most one cable) and join two different switches; a switch with two of its own ports cabled together makes "
                    "_calc_spanning_tree raise AssertionError (theorem calc_raises_iff_selfloop; modelled, compared, but outside the property's quantifier)",
@@ -256,12 +270,17 @@ class C19(Check):
                   "(flood_ports_full_repaired, flood_keeps).  flood_bits / bits_are_prev / port_mods_are_changes tie _prev to the NO_FLOOD bits on the switches, given that "
                   "every port_mod is applied.  Trusted: Lean kernel, axioms propext/Classical.choice/Quot.sound, the hand-written models, this harness; the theorems are "
                   "about the models, the runs below are what connects them to the code.")
-    rule = ("live: timer-driven runs (nothing called by hand; real recoco Timers for the expiry sweep, the send cycle, the delayed port checks; probes cross the cables): corpus = quiet "
+    rule = ("opts (configuration as input, hist + live): live corpus = link_timeout 1, 2, 3, 5, 10, 30 (launch text and constructor), 0 (= default) and 2.5, on one cable and on a "
+            "triangle, each run 3 timeouts + 2 check periods long and looked at several times, then a cable goes silent for timeout + period + 1 s and comes back; every "
+            "other option of discovery alone, all together, both launch orders, every documented spelling class of a boolean text, with ARP / UDP / foreign LLDP / runt "
+            "PacketIns between the probes; no_flood / hold_down / both under default and short timeouts with a late-comer, a reboot and host-facing ports; random: "
+            "55 % of the live and 30 % of the hist histories draw options (timeout 1..30 s), run lengths follow the timeout.  "
+            "live: timer-driven runs (nothing called by hand; real recoco Timers for the expiry sweep, the send cycle, the delayed port checks; probes cross the cables): corpus = quiet "
             "ticks first, then a cable / one direction / a wedged switch goes silent without any disconnect, two silent failures in a row, long quiet runs, reboots and carrier flaps "
             "between ticks, cuts right after and right before a tick; random: 2..5 switches, 3..12 ops of run(0.125..26 s) / cut / mend / mute / down / up / reboot / carrier flap, "
             "always ending with > 15 s of quiet.  calcseq: 2..5 adjacencies through one process in a row (other dict order, a parallel cable gone, a cable re-plugged, the same again); upd: one or two _update_tree() calls from an arbitrary _prev with a send lost at any position; frame corpus: all 256 chassis / port subtypes, all TLV types, declared lengths 0..40 and 255..511; portsweep: sender -> receiver for every port number built from parser-relevant byte classes + 0..512 + 0xfe00..0xffff (thorough: all 65536); hist: port numbers from the whole legal range (0x3030..0x3939, 255/256, 0xfeff ...), carrier flaps shorter than the link timeout interleaved with tree changes; hist corpus: discovery interrupted after every prefix by every switch rebooting, dpid 0, mixed sweeps.  calc (dict order shuffled per case): 2 and 3 switches exhaustive over all 13 cable options per pair (none / 1 / 2 parallel cables, each bidirectional or one-way "
-            "either way); 4 switches exhaustive over 5 options per pair (5^6; thorough: 6 options, 6^6, + 100000 sampled over all 13); 5 switches (thorough) exhaustive over {none, bidirectional, "
-            "one-way} (3^10) + 60000 sampled over all 13; random multigraphs on 5..12 switches; arbitrary link lists with shared / crossed ports.  hist: random topologies of 2..6 switches with redundant / parallel / one-way "
+            "either way); 4 switches exhaustive over 5 options per pair (5^6; thorough: 6 options, 6^6, + 80000 sampled over all 13); 5 switches (thorough) exhaustive over {none, bidirectional, "
+            "one-way} (3^10) + 50000 sampled over all 13; random multigraphs on 5..12 switches; arbitrary link lists with shared / crossed ports.  hist: random topologies of 2..6 switches with redundant / parallel / one-way "
             "cables and 10..60 ops.  codec: boundary x boundary and random dpids/ports.  frame: damaged and foreign LLDP.  "
             "non-trivial = calc with a non-empty tree, hist / live with >=1 removal event, codec/frame always")
     coverage_cases = 10 ** 9          # trace every case (the tracer only follows the anchored files)
@@ -275,8 +294,10 @@ class C19(Check):
                 "note_prev": "spanning_tree._prev is read / preset only by the `upd` kind, through an adapter for the nested and the flat {(dpid, port): b} shape; "
                              "histories observe flood state only through the port_mods sent and a harness-owned per-switch port config that a reconnect resets",
                 "anchored_lines_not_reachable_in_this_configuration":
-                "def lines (executed at import), discovery.py:352-356 (_eat_early_packets off), :371-381 (re-checks of what lldp.parse already enforced), "
-                ":399-400 / :445-446 (except around struct.unpack of a slice whose length was just tested), spanning_tree.py:191-199 (_hold_down off, connect_time None): about 32 anchored lines"}
+                "def lines (executed at import), discovery.py:371-381 (re-checks of what lldp.parse already enforced), "
+                ":399-400 / :445-446 (except around struct.unpack of a slice whose length was just tested), spanning_tree.py:191 (connect_time None); the option "
+                "branches (_eat_early_packets, _hold_down, _noflood_by_default) are driven by the `opts` of hist / live cases",
+                "configurations_built": len(getattr(self, "worlds", {}))}
 
     # ------------------------------------------------------------------ setup
     def setup(self):
@@ -303,48 +324,129 @@ class C19(Check):
         import pox.lib.packet as pkt
         self.core, self.ofmod, self.of, self.disc, self.st, self.pkt = core, ofmod, of, disc, st, pkt
         poxenv.clock.now = 1000.0
-        if not core.hasComponent("openflow_discovery"):
-            core.registerNew(disc.Discovery)
-            st.launch()
-        self.D = core.openflow_discovery
-        # what the components set going when they are constructed: every `live` case starts with these timers freshly made (no other
-        # kind of case ever turns the scheduler's crank)
-        self.ctor_timers = [(a, kw) for (_, a, kw) in self.timers_made]
+        import pox.lib.packet.lldp as lldpmod
+        # -- configuration is an input: every set of options is its own pair of components, started through the public launch() functions
+        #    (or the documented constructor) on a nexus nobody else of C19 listens on; a case names its options and runs in that "world"
+        def ours(h):
+            f = h[1] if isinstance(h, (tuple, list)) and len(h) > 1 else h
+            own = getattr(f, "__self__", None)
+            return (own is not None and type(own).__module__ == disc.__name__) or getattr(f, "__module__", None) == st.__name__
+        self._base_handlers = {k: [h for h in v if not ours(h)] for k, v in getattr(core.openflow, "_eventMixin_handlers", {}).items()}
+        for k in ("_noflood_by_default", "_hold_down"):
+            if isinstance(getattr(st, k, None), bool): setattr(st, k, False)
+        for k in ("_prev", "_dirty_switches"):
+            if isinstance(getattr(st, k, None), dict): getattr(st, k).clear()
+        self._st_defaults = self._snap(vars(st))
+        self._class_pristine = []
+        for mod in (disc, st, lldpmod):                                     # class-level dicts / lists shared by instances
+            for cls in [c for c in vars(mod).values() if isinstance(c, type) and getattr(c, "__module__", None) == mod.__name__]:
+                self._class_pristine.append((cls, self._snap(dict(vars(cls)))))
+        self.skipped = {}
+        self._events = []
+        self._orders = []
+        self.real_conns = core.openflow._connections
+        self.f_calc = getattr(st, "_calc_spanning_tree", None)
+        self.f_update = getattr(st, "_update_tree", None)
+        self.worlds = {}
+        self._activate(self._world({}))
         self.ctor_timer_info = []
         for a, kw in self.ctor_timers:
             g = timer_args(self.base_timer, a, kw)
             self.ctor_timer_info.append([g["t"], getattr(g["cb"], "__name__", str(g["cb"])), g["recurring"], g["selfStoppable"], g["started"]])
-        # the expiry sweep = the recurring timer Discovery set up for one of its own methods (looked up by behaviour, the name is a fallback);
-        # only the `hist` kind calls it by hand (`sweep` ops); the `live` kind lets the timer do it
-        cbs = [g for g in (timer_args(self.base_timer, a, kw) for a, kw in self.ctor_timers)
-               if g["recurring"] and getattr(g["cb"], "__self__", None) is self.D]
-        self.expire_cb = cbs[0]["cb"] if cbs else getattr(self.D, "_expire_links", None)
-        # ... and even by hand it is called the way its Timer would: a self-stoppable recurring timer whose callback returns False is over
-        self.expire_selfstop = bool(cbs and cbs[0]["selfStoppable"])
-        self.f_calc = getattr(st, "_calc_spanning_tree", None)
-        self.f_update = getattr(st, "_update_tree", None)
-        self.skipped = {}
-        self._pristine = [(self.D, self._snap(vars(self.D))), (st, self._snap(vars(st)))]
-        snd = getattr(self.D, "_sender", None)
-        if snd is not None: self._pristine.append((snd, self._snap(vars(snd))))
-        import pox.lib.packet.lldp as lldpmod
-        for mod in (disc, st, lldpmod):                                     # class-level dicts / lists shared by instances
-            for cls in [c for c in vars(mod).values() if isinstance(c, type) and getattr(c, "__module__", None) == mod.__name__]:
-                self._pristine.append((cls, self._snap(dict(vars(cls)))))
-        self._events = []
-        self._orders = []
-        def rec(e):
-            s = set()
-            for l in self.D.adjacency:               # the same construction as spanning_tree.py:59-64 -> the same iteration order
-                s.add(l.dpid1); s.add(l.dpid2)
-            self._orders.append(list(s))
-            self._events.append([bool(e.added), list(e.link)])
-        self.D.addListenerByName("LinkEvent", rec, priority=1 << 40)
-        self.real_conns = core.openflow._connections
         self.variant = self._probe_variant()
         # the handlers as they are (or without C19-2): the tree is a parameter of the model, the implementation's choice is judged by
         # Spec.validForest; the variants of the code before D20 / C19-1 recompute on a stale adjacency and are compared as before
         self.spec = bool(self.variant["popFirst"] and not self.variant["skip"])
+
+    # ------------------------------------------------------------------ configurations ("worlds")
+    TRUE_TEXTS = ("true", "t", "yes", "y", "on", "enable", "enabled", "ok", "okay", "1", "allow", "allowed")      # util.str_to_bool, as documented
+
+    @classmethod
+    def _truth(cls, v, default=False):
+        if v is None: return default
+        if isinstance(v, bool): return v
+        return str(v).lower() in cls.TRUE_TEXTS
+
+    @classmethod
+    def config_of(cls, opts):
+        """what a set of options MEANS, from the documentation of the two launch() functions alone: the link timeout in ms (0 / absent:
+        the default 10 s), the flags"""
+        opts = opts or {}
+        lt = opts.get("link_timeout")
+        lt = float(lt) if lt not in (None, "") else 0
+        return {"timeout": int(round(lt * 1000)) if lt else TIMEOUT_MS,
+                "no_flow": cls._truth(opts.get("no_flow")), "explicit_drop": cls._truth(opts.get("explicit_drop"), True),
+                "eat": cls._truth(opts.get("eat_early_packets")), "no_flood": bool(opts.get("no_flood")), "hold_down": bool(opts.get("hold_down"))}
+
+    def _rec(self, e):
+        s = set()
+        for l in self.D.adjacency:               # the same construction as spanning_tree.py:59-64 -> the same iteration order
+            s.add(l.dpid1); s.add(l.dpid2)
+        self._orders.append(list(s))
+        self._events.append([bool(e.added), list(e.link)])
+
+    def _world(self, opts):
+        key = json.dumps(opts or {}, sort_keys=True)
+        w = self.worlds.get(key)
+        if w is None: w = self.worlds[key] = self._make_world(dict(opts or {}))
+        return w
+
+    def _make_world(self, opts):
+        core, disc, st = self.core, self.disc, self.st
+        cfg = self.config_of(opts)
+        # a nexus nobody of C19 listens on, no discovery component, spanning_tree's module state as imported
+        core.openflow._eventMixin_handlers = {k: list(v) for k, v in self._base_handlers.items()}
+        core.components.pop("openflow_discovery", None)
+        self._restore(st, self._st_defaults)
+        self.core.openflow._connections = self.real_conns
+        self.real_conns.clear()
+        poxenv.clock.now = 1000.0
+        del self.timers_made[:]
+        def start_discovery():
+            if opts.get("how") == "ctor":
+                # the documented constructor, with Python values
+                lt = opts.get("link_timeout")
+                kw = {}
+                if lt is not None: kw["link_timeout"] = lt
+                if "no_flow" in opts: kw["install_flow"] = not cfg["no_flow"]
+                if "explicit_drop" in opts: kw["explicit_drop"] = cfg["explicit_drop"]
+                if "eat_early_packets" in opts: kw["eat_early_packets"] = cfg["eat"]
+                core.registerNew(disc.Discovery, **kw)
+            else:
+                # launch(), with the texts the command line would hand over (a bare --flag arrives as True)
+                kw = {}
+                if opts.get("link_timeout") is not None: kw["link_timeout"] = str(opts["link_timeout"])
+                for k in ("no_flow", "explicit_drop", "eat_early_packets"):
+                    if k in opts: kw[k] = opts[k]
+                disc.launch(**kw)
+        def start_tree():
+            st.launch(**{k: True for k in ("no_flood", "hold_down") if opts.get(k)})
+        for f in ((start_tree, start_discovery) if opts.get("st_first") else (start_discovery, start_tree)): f()
+        D = core.components["openflow_discovery"]
+        w = {"opts": opts, "cfg": cfg, "D": D, "ctor_timers": [(a, kw) for (_, a, kw) in self.timers_made]}
+        # the expiry sweep = the recurring timer Discovery set up for one of its own methods (looked up by behaviour, the name is a fallback);
+        # only the `hist` kind calls it by hand (`sweep` ops); the `live` kind lets the timer do it
+        cbs = [g for g in (timer_args(self.base_timer, a, kw) for a, kw in w["ctor_timers"])
+               if g["recurring"] and getattr(g["cb"], "__self__", None) is D]
+        w["expire_cb"] = cbs[0]["cb"] if cbs else getattr(D, "_expire_links", None)
+        # ... and even by hand it is called the way its Timer would: a self-stoppable recurring timer whose callback returns False is over
+        w["expire_selfstop"] = bool(cbs and cbs[0]["selfStoppable"])
+        pr = [(D, self._snap(vars(D))), (st, self._snap(vars(st)))]
+        snd = getattr(D, "_sender", None)
+        if snd is not None: pr.append((snd, self._snap(vars(snd))))
+        w["pristine"] = pr + self._class_pristine
+        D.addListenerByName("LinkEvent", self._rec, priority=1 << 40)
+        w["handlers"] = {k: list(v) for k, v in core.openflow._eventMixin_handlers.items()}
+        return w
+
+    def _activate(self, w):
+        """the components of this configuration are the ones on the nexus and in the core"""
+        self.world = w
+        self.core.openflow._eventMixin_handlers = {k: list(v) for k, v in w["handlers"].items()}
+        self.core.components["openflow_discovery"] = w["D"]
+        self.D, self.cfg = w["D"], w["cfg"]
+        self.ctor_timers, self.expire_cb, self.expire_selfstop = w["ctor_timers"], w["expire_cb"], w["expire_selfstop"]
+        self._pristine = w["pristine"]
 
     def _probe_variant(self):
         """which of the modelled variants of the handlers the code under test behaves like (three behaviour probes through the real
@@ -515,6 +617,56 @@ class C19(Check):
         # expiry boundary through the timer: the last probe over 1.1->2.1 arrives at 5 s sharp?  cut right after a tick, and right before one
         add(two, U(1, 2) + [R(5000), CUT(0), R(10000), R(5000), R(125)])
         add(two, U(1, 2) + [R(4875), CUT(0), R(10125), R(4875), R(125)])
+        out += self._live_opts_corpus(two, tri, par)
+        return out
+
+    BOOL_TEXTS = (True, "True", "true", "yes", "1", "on")
+    FALSE_TEXTS = ("False", "false", "no", "0", "off")
+
+    def _live_opts_corpus(self, two, tri, par):
+        """configuration is an input: every documented option of discovery (link_timeout, no_flow, explicit_drop, eat_early_packets) and of
+        spanning_tree (no_flood, hold_down), the components started through launch() with the texts a command line would carry (or the
+        documented constructor).  The link timeout is swept over small and large values; every run is several timeouts long, then a cable
+        goes silent and comes back"""
+        R = lambda dt: {"k": "run", "dt": dt}
+        U = lambda *ds: [{"k": "up", "dpid": d} for d in ds]
+        CUT = lambda i, dr=2: {"k": "cut", "i": i, "dir": dr}
+        MEND = lambda i, dr=2: {"k": "mend", "i": i, "dir": dr}
+        DATA = lambda d, p, w=0: {"k": "data", "dpid": d, "port": p, "what": w}
+        out = []
+        def add(topo, ops, **opts): out.append({"kind": "live", "topo": topo, "ops": ops, "opts": opts})
+        def long_run(T, pieces=4):
+            """several timeouts of nothing, looked at `pieces` times: 3 timeouts + 2 check periods, on the 1/8 s grid"""
+            total = 3 * T + 2 * PERIOD_MS
+            step = max(125, (total // pieces) // 125 * 125)
+            return [R(step)] * pieces + [R(125)]
+        for n in (1, 2, 3, 5, 10, 30):
+            T = n * 1000
+            silent = [CUT(0), R(T + PERIOD_MS + 1000), MEND(0), R(T + PERIOD_MS + 125)]
+            add(two, U(1, 2) + long_run(T) + silent, link_timeout=n)
+            add(tri, U(1, 2, 3) + long_run(T, 3) + silent + long_run(T, 2), link_timeout=n, how="ctor")
+        # 0 / "" mean "the default"; a fractional timeout through the constructor
+        add(two, U(1, 2) + long_run(10000) + [CUT(0), R(16000)], link_timeout=0)
+        add(two, U(1, 2) + long_run(2500) + [CUT(0), R(8000)], link_timeout=2.5, how="ctor")
+        # the other options of discovery, one at a time, all together, in both launch orders, with ordinary traffic between the probes
+        traffic = [DATA(1, 2), R(1000), DATA(2, 2, 1), DATA(1, 1, 2), R(2000), DATA(2, 1, 3), DATA(1, 2, 1)]
+        for o in ({"no_flow": True}, {"no_flow": "yes"}, {"explicit_drop": "False"}, {"explicit_drop": "0"}, {"explicit_drop": "true"},
+                  {"eat_early_packets": True}, {"eat_early_packets": "on"}, {"no_flow": "False", "eat_early_packets": "no"},
+                  {"no_flow": True, "explicit_drop": "no", "eat_early_packets": "1", "link_timeout": 3},
+                  {"no_flow": True, "explicit_drop": False, "eat_early_packets": True, "link_timeout": 2, "how": "ctor"},
+                  {"st_first": True}, {"st_first": True, "link_timeout": 2}):
+            T = self.config_of(o)["timeout"]
+            add(tri, U(1, 2, 3) + traffic + long_run(T, 3) + traffic + [CUT(0), R(T + PERIOD_MS + 1000), MEND(0), R(T + PERIOD_MS + 125)], **o)
+        # spanning_tree's options: no_flood (every port of a new switch starts blocked), hold_down (young switches are left alone for
+        # send cycle + 1 s, then updated by a timer of their own), both; with the default and with a short link timeout; a reboot and a
+        # late-comer while the others are old; host-facing ports on every switch
+        for o in ({"no_flood": True}, {"hold_down": True}, {"no_flood": True, "hold_down": True},
+                  {"no_flood": True, "link_timeout": 2}, {"hold_down": True, "link_timeout": 2}, {"no_flood": True, "hold_down": True, "link_timeout": 3},
+                  {"no_flood": True, "hold_down": True, "st_first": True, "link_timeout": 30}):
+            T = self.config_of(o)["timeout"]
+            q = T + PERIOD_MS + 1000
+            add(tri, U(1, 2) + [R(T // 2 + 1125)] + U(3) + [R(q), CUT(0), R(q), {"k": "down", "dpid": 3}, R(1000)] + U(3) + [R(T // 2 + 1000), R(125), R(q)], **o)
+            add(par, U(1) + [R(q)] + U(2) + [R(250), R(T // 2 + 875), R(q), CUT(0, 1), R(q), MEND(0), R(q)], **o)
         return out
 
     def _live_history(self, rng, nops=None):
@@ -545,8 +697,36 @@ class C19(Check):
             elif ncab:
                 end = rng.choice(topo["cables"][rng.randrange(ncab)])
                 ops += [{"k": "pstate", "dpid": end[0], "port": end[1], "down": True}, R(), {"k": "pstate", "dpid": end[0], "port": end[1], "down": False}]
-        ops += [{"k": "run", "dt": 125 * rng.choice([128, 136, 168])}, {"k": "run", "dt": 125 * rng.choice([24, 56, 120])}]
-        return {"kind": "live", "topo": topo, "ops": ops}
+        opts = self._rand_opts(rng) if rng.random() < 0.55 else {}
+        T = self.config_of(opts)["timeout"]
+        if opts:
+            # other traffic between the probes; the quiet stretches follow the configured timeout
+            for _ in range(rng.choice([0, 1, 3])):
+                d = rng.choice(dpids)
+                ops.insert(rng.randrange(len(ops) + 1), {"k": "data", "dpid": d, "port": rng.choice(topo["switches"][str(d)] or [1]), "what": rng.randrange(4)})
+            if T != TIMEOUT_MS:
+                for op in ops:
+                    if op["k"] == "run" and rng.random() < 0.7: op["dt"] = max(125, int(op["dt"] * T / TIMEOUT_MS) // 125 * 125)
+        ops += [{"k": "run", "dt": T + PERIOD_MS + 125 * rng.choice([8, 16, 48])}, {"k": "run", "dt": 125 * rng.choice([24, 56, 120])},
+                {"k": "run", "dt": T + 125 * rng.choice([1, 8, 40])}]
+        c = {"kind": "live", "topo": topo, "ops": ops}
+        if opts: c["opts"] = opts
+        return c
+
+    def _rand_opts(self, rng):
+        o = {}
+        if rng.random() < 0.7: o["link_timeout"] = rng.choice([1, 2, 2, 3, 3, 4, 5, 7, 10, 15, 30])
+        if rng.random() < 0.25: o["no_flow"] = rng.choice(self.BOOL_TEXTS + self.FALSE_TEXTS)
+        if rng.random() < 0.25: o["explicit_drop"] = rng.choice(self.BOOL_TEXTS[1:] + self.FALSE_TEXTS)
+        if rng.random() < 0.25: o["eat_early_packets"] = rng.choice(self.BOOL_TEXTS + self.FALSE_TEXTS)
+        if rng.random() < 0.2: o["no_flood"] = True
+        if rng.random() < 0.2: o["hold_down"] = True
+        if rng.random() < 0.2: o["st_first"] = True
+        if rng.random() < 0.2:
+            o["how"] = "ctor"
+            for k in ("no_flow", "explicit_drop", "eat_early_packets"):
+                if k in o: o[k] = self._truth(o[k])
+        return o
 
     def _calcseq_corpus(self, rng, n=40):
         """one process, several adjacencies in a row: the same links in another dict order, one of two parallel cables gone, the ports
@@ -823,7 +1003,13 @@ class C19(Check):
                 if dirs:
                     x = rng.choice(dirs)
                     (dead.discard if x in dead else dead.add)(x)
-        return {"kind": "hist", "topo": topo, "ops": ops}
+        c = {"kind": "hist", "topo": topo, "ops": ops}
+        if rng.random() < 0.3:
+            c["opts"] = self._rand_opts(rng)
+            for _ in range(rng.choice([0, 1, 3])):
+                d = rng.choice(dpids)
+                ops.insert(rng.randrange(len(ops) + 1), {"k": "data", "dpid": d, "port": rng.choice(topo["switches"][str(d)] or [1]), "what": rng.randrange(4)})
+        return c
 
     def generate(self, rng, tier):
         quick = tier == "quick"
@@ -851,17 +1037,17 @@ class C19(Check):
             for hi in range(256):                                           # every 16-bit port number, sender -> receiver
                 yield {"kind": "portsweep", "dpid": 0x10 + hi, "ports": list(range(hi << 8, (hi + 1) << 8))}
         if not quick:
-            # 5 switches: all 3^10 = 59049 patterns over {none, bidirectional, one-way}, then 60000 sampled over all 13 options per pair;
-            # 4 switches: 100000 sampled over all 13 options per pair (13^6 = 4.8M is not enumerated)
+            # 5 switches: all 3^10 = 59049 patterns over {none, bidirectional, one-way}, then 50000 sampled over all 13 options per pair;
+            # 4 switches: 80000 sampled over all 13 options per pair (13^6 = 4.8M is not enumerated)
             six = [[], [(1, 1)], [(1, 0)], [(0, 1)], [(1, 1), (1, 1)], [(1, 1), (1, 0)]]
             for pat in itertools.product(six, repeat=6):                  # 4 switches, 6 options per pair: 46656
                 yield self._graph_case(4, pat, rng)
             basic3 = [[], [(1, 1)], [(1, 0)]]
             for pat in itertools.product(basic3, repeat=10):
                 yield self._graph_case(5, pat, rng)
-            for _ in range(60000):
+            for _ in range(50000):
                 yield self._graph_case(5, [rng.choice(CABLE_OPTS) for _ in range(10)], rng)
-            for _ in range(100000):
+            for _ in range(80000):
                 yield self._graph_case(4, [rng.choice(CABLE_OPTS) for _ in range(6)], rng)
         for _ in range(1200 if quick else 15000):
             yield self._history(rng)
@@ -904,6 +1090,7 @@ class C19(Check):
         return list(s)
 
     def impl(self, case):
+        self._activate(self._world(case.get("opts") or {}))
         self._reset()
         return getattr(self, "_impl_" + case["kind"])(case)
 
@@ -1015,7 +1202,7 @@ class C19(Check):
             elif k == "probe":
                 (d1, p1), (d2, p2) = op["from"], op["to"]
                 if d2 not in up or d1 not in sw or p1 not in sw[d1] or p2 not in sw.get(d2, []): continue
-            elif k == "pstate":
+            elif k in ("pstate", "data"):
                 if op["dpid"] not in up or op["port"] not in sw[op["dpid"]]: continue
             elif k in ("mute", "unmute"):
                 if op["dpid"] not in up: continue
@@ -1077,6 +1264,8 @@ class C19(Check):
                 pp.state = (pp.state | of.OFPPS_LINK_DOWN) if op["down"] else (pp.state & ~of.OFPPS_LINK_DOWN)
                 ps = of.ofp_port_status(reason=of.OFPPR_MODIFY, desc=pp)
                 core.openflow.raiseEventNoErrors(self.ofmod.PortStatus, con, ps)
+            elif k == "data":
+                self._data_in(cons[op["dpid"]], op["port"], op.get("what", 0))
             mods = []
             for con in list(cons.values()): mods += drain(con)
             st = {"k": k, "events": copy.deepcopy(self._events), "mods": sorted(mods), "raw": list(mods),
@@ -1116,6 +1305,8 @@ class C19(Check):
             peer[tuple(a)] = (i, 0, tuple(b)); peer[tuple(b)] = (i, 1, tuple(a))
         cut, muted, cons, bits, trace = set(), set(), {}, {}, []
         T0 = 1000.0
+        import random as _random
+        _random.seed(1919)                                               # LLDPSender draws from the global generator when it sends in chunks
         ms = lambda: int(round((clock.now - T0) * 1000))
         count = [0]
 
@@ -1180,7 +1371,8 @@ class C19(Check):
             k = op["k"]
             if k == "run":
                 run_until(clock.now + op["dt"] / 1000.0)
-                trace.append({"k": "obs", "t": ms(), "adj": sorted(list(l) for l in D.adjacency), "events": [], "mods": []})
+                trace.append({"k": "obs", "t": ms(), "adj": sorted(list(l) for l in D.adjacency), "events": [], "mods": [],
+                              "bits": sorted([d, p, b] for (d, p), b in bits.items()), "up": sorted(cons)})
                 continue
             if k == "up":
                 d = int(str(op["dpid"]))
@@ -1203,11 +1395,37 @@ class C19(Check):
                 con = cons[op["dpid"]]; pp = con.ports[op["port"]]
                 pp.state = (pp.state | of.OFPPS_LINK_DOWN) if op["down"] else (pp.state & ~of.OFPPS_LINK_DOWN)
                 core.openflow.raiseEventNoErrors(self.ofmod.PortStatus, con, of.ofp_port_status(reason=of.OFPPR_MODIFY, desc=pp))
+            elif k == "data":
+                self._data_in(cons[op["dpid"]], op["port"], op.get("what", 0))
             self._settle()
             flush(k, {x: op[x] for x in op if x != "k"}, True)
             run_until(clock.now)                                        # frames that arrive without delay (the clock is on the grid)
         adjacency = [[list(l), int(round((t - T0) * 1000))] for l, t in D.adjacency.items()]
         return {"trace": trace, "adjacency": adjacency, "wakeups": count[0]}
+
+    def _data_in(self, con, port, what):
+        """traffic that is no probe reaches the controller from a port (table miss): ARP, IPv4/UDP, an LLDP frame of another agent sent
+        to the standard LLDP group address, a runt.  No input of the adjacency"""
+        pkt = self.pkt
+        from pox.lib.addresses import IPAddr, EthAddr
+        src = hw_of(0x77, port)
+        if what == 0:
+            fr = pkt.ethernet(src=EthAddr(src), dst=EthAddr(b"\xff" * 6), type=pkt.ethernet.ARP_TYPE)
+            fr.payload = pkt.arp(opcode=pkt.arp.REQUEST, hwsrc=EthAddr(src), protosrc=IPAddr("10.0.0.%d" % (1 + port % 200)), protodst=IPAddr("10.0.0.254"))
+            data = fr.pack()
+        elif what == 1:
+            u = pkt.udp(srcport=68, dstport=67); u.payload = b"x" * 20
+            ip = pkt.ipv4(srcip=IPAddr("10.0.0.7"), dstip=IPAddr("10.0.0.9"), protocol=pkt.ipv4.UDP_PROTOCOL); ip.payload = u
+            fr = pkt.ethernet(src=EthAddr(src), dst=EthAddr(hw_of(0x78, port)), type=pkt.ethernet.IP_TYPE); fr.payload = ip
+            data = fr.pack()
+        elif what == 2:
+            data = bytes.fromhex(self._mk_frame([(1, b"\x04\x00\x11\x22\x33\x44\x55"), (2, b"\x05eth0"), (3, b"\x00\x78"), (0, b"")],
+                                                dst=b"\x01\x80\xc2\x00\x00\x0e"))
+        else:
+            data = src + src
+        pi = self.of.ofp_packet_in(in_port=port, data=data)
+        pi.buffer_id = 55 if what == 1 else None
+        self.core.openflow.raiseEventNoErrors(self.ofmod.PacketIn, con, pi)
 
     def _packet_in(self, frame):
         class AllKnown(type(self.real_conns)):
@@ -1300,6 +1518,7 @@ class C19(Check):
             return {"op": "batch", "reqs": [self._calc_req(links, it) for links, it in zip(case["seq"], obs["items"])]}
         if k == "codec":
             return {"op": "batch", "reqs": [{"op": "pack", "dpid": it["dpid"], "port": it["port"], "hw": it["hw"], "ttl": 120} for it in obs["items"]]}
+        if k in ("hist", "live") and not self._modelled(case): return None          # oracle only (see `_modelled`)
         if k == "hist":
             sw = {int(d): ps for d, ps in case["topo"]["switches"].items()}
             ops = []
@@ -1310,18 +1529,32 @@ class C19(Check):
                 elif kk == "down": ops.append({"k": "down", "dpid": op["dpid"], "order": st["order"]})
                 elif kk == "sweep": ops.append({"k": "sweep", "order": st["order"]})
                 elif kk == "probe": ops.append({"k": "probe", "l": op["from"] + op["to"], "order": st["order"]})
-                elif kk == "pstate": ops.append({"k": "tick", "dt": 0})     # carrier is no input of discovery's adjacency or of _update_tree
+                elif kk in ("pstate", "data"): ops.append({"k": "tick", "dt": 0})     # carrier / other traffic is no input of discovery's adjacency or of _update_tree
             if self.spec:
                 j = 0
                 for op, st in zip(self._norm_ops(case), obs["steps"]):
                     ops[j]["mods"] = st.get("raw", st["mods"]); j += 1
-            return {"op": "history", "variant": self.variant, "ops": ops, "impl": self.spec}
+            return self._cfg_req(case, {"op": "history", "variant": self.variant, "ops": ops, "impl": self.spec})
         if k == "live":
             ops, views = self._live_model_ops(case, obs)
             if self.spec:
                 ops = [dict(op, mods=v.get("raw", v["mods"])) for op, v in zip(ops, views)]
-            return {"op": "timed", "variant": self.variant, "ops": ops, "impl": self.spec}
+            return self._cfg_req(case, {"op": "timed", "variant": self.variant, "ops": ops, "impl": self.spec})
         return None
+
+    def _modelled(self, case):
+        """the configured link timeout and no_flood are parameters of the model (Cfg, stepOfC / tstepOfC; configured_default_is_model);
+        hold_down (ages of connections, one-shot timers per switch) is not modelled: those histories are judged by the oracle alone.
+        no_flow, explicit_drop, eat_early_packets, the order of the two launch() calls and launch() vs constructor are no inputs of the
+        model: such histories are model-compared like any other"""
+        c = self.config_of(case.get("opts"))
+        if c["hold_down"]: return False
+        return self.spec or (c["timeout"] == TIMEOUT_MS and not c["no_flood"])
+
+    def _cfg_req(self, case, req):
+        c = self.config_of(case.get("opts"))
+        if c["timeout"] != TIMEOUT_MS or c["no_flood"]: req["cfg"] = {"timeout": c["timeout"], "no_flood": c["no_flood"]}
+        return req
 
     def _calc_req(self, links, obs):
         """the adjacency, and -- when the implementation returned a tree -- that tree (the dict flattened to [switch, neighbour, port]
@@ -1489,6 +1722,7 @@ class C19(Check):
     def _oracle_hist(self, case, obs):
         sw = {int(d): ps for d, ps in case["topo"]["switches"].items()}
         ops = self._norm_ops(case)
+        cfg = self.config_of(case.get("opts"))
         # (1) LinkEvent stream alternates per link, starting with added
         last = {}
         for st in obs["steps"]:
@@ -1510,15 +1744,20 @@ class C19(Check):
                 l = tuple(op["from"] + op["to"])
                 if l[0] in up and (l[0], l[1]) != (l[2], l[3]): seen[l] = now
             elif k == "sweep":
-                for l in [l for l, t in seen.items() if t + TIMEOUT_MS < now]: del seen[l]
+                for l in [l for l, t in seen.items() if t + cfg["timeout"] < now]: del seen[l]
             if "snap" in st and sorted(seen) != [tuple(l) for l in st["snap"]["adj"]]:
                 return "adjacency: after %s it is %s, expected %s" % (k, st["snap"]["adj"], sorted(seen))
         if sorted((l, t) for l, t in seen.items()) != sorted((tuple(l), t) for l, t in obs["adjacency"]):
             return "adjacency: final %s, expected %s" % (obs["adjacency"], sorted(seen.items()))
         # (3) after every change: flooding is on for a spanning forest of the bidirectional links and for every host-facing port
-        low = []
+        low, now, since = [], 0, {}
         for op, st in zip(ops, obs["steps"]):
+            if op["k"] == "tick": now += op["dt"]
+            elif op["k"] == "up": since[op["dpid"]] = now
             if "snap" not in st: continue
+            # hold_down: the flood bits of a switch that connected less than send cycle + 1 s ago are left alone by design; the clause
+            # is judged when every connected switch is older than that (no_flood changes nothing after a change of the adjacency)
+            if cfg["hold_down"] and any(now - since.get(d, 0) < cfg["timeout"] // 2 + 1000 for d in st["snap"]["up"]): continue
             hard, lo = self._flood_check([tuple(l) for l in st["snap"]["adj"]], {(d, p): b for d, p, b in st["snap"]["bits"]},
                                          st["snap"]["up"], sw, op["k"])
             if hard: return hard
@@ -1537,6 +1776,9 @@ class C19(Check):
         the LinkEvent stream alternates per link; after every change of the adjacency the flood bits are right."""
         sw = {int(d): ps for d, ps in case["topo"]["switches"].items()}
         cables = case["topo"]["cables"]
+        cfg = self.config_of(case.get("opts"))
+        TIMEOUT_MS = cfg["timeout"]                                     # the CONFIGURED link timeout; the expiry check period is the documented 5 s
+        hold = TIMEOUT_MS // 2 + 1000                                   # hold_down: send cycle (timeout / 2) + 1 s
         died = obs.get("tasks_died", 0)
         note = " [%d task(s) of the scheduler died of an exception]" % died if died else ""
         last = {}
@@ -1546,10 +1788,11 @@ class C19(Check):
                 if last.get(l, False) == added:
                     return "events: link %s announced %s twice in a row" % (l, "added" if added else "removed (or removed first)")
                 last[l] = added
-        up, muted, cut, seen, quiet, low = set(), set(), set(), {}, 0, []
+        up, muted, cut, seen, quiet, low, since, changed = set(), set(), set(), {}, 0, [], {}, True
         for e in obs["trace"]:
             k, t = e["k"], e["t"]
-            if k == "up": up.add(e["dpid"]); quiet = t
+            if e["events"]: changed = True
+            if k == "up": up.add(e["dpid"]); quiet = t; since[e["dpid"]] = t; changed = bool(e["events"])
             elif k == "down":
                 up.discard(e["dpid"]); muted.discard(e["dpid"]); quiet = t
                 for l in [l for l in seen if l[0] == e["dpid"] or l[2] == e["dpid"]]: del seen[l]
@@ -1575,16 +1818,25 @@ class C19(Check):
                 if t > seen[l] + TIMEOUT_MS + PERIOD_MS:
                     return ("adjacency: stale link %s is still there at %d ms, %d ms after the last probe crossed it: the links of a silent switch must be "
                             "withdrawn (link timeout %d ms, expiry check every %d ms)%s" % (l, t, t - seen[l], TIMEOUT_MS, PERIOD_MS, note))
-            if k == "obs" and t - quiet >= TIMEOUT_MS + PERIOD_MS:
+            if t - quiet >= TIMEOUT_MS + PERIOD_MS:
                 for i, (a, b) in enumerate(cables):
                     for dr, (x, y) in enumerate(((a, b), (b, a))):
                         l = tuple(x) + tuple(y)
                         if (i, dr) not in cut and x[0] in up and y[0] in up and x[0] not in muted and y[0] not in muted and l not in have:
-                            return ("adjacency: undiscovered link %s at %d ms: the cable works in that direction, both switches are connected and "
-                                    "nothing was done to the network for %d ms%s" % (l, t, t - quiet, note))
-            if "snap" in e:
-                hard, lo = self._flood_check([tuple(l) for l in e["snap"]["adj"]], {(d, p): b for d, p, b in e["snap"]["bits"]},
-                                             e["snap"]["up"], sw, "timer" if k == "wake" else k)
+                            gone = [x for x in e["events"] if not x[0] and tuple(x[1]) == l]
+                            return ("adjacency: %s link %s at %d ms: the cable carries probes in that direction, both switches are connected and "
+                                    "nothing was done to the network for %d ms (link timeout %d ms)%s" %
+                                    ("withdrawn" if gone else "undiscovered", l, t, t - quiet, TIMEOUT_MS, note))
+            # the flood clause: after every change of the adjacency, and whenever the run is looked at.  What the options of spanning_tree
+            # leave of it: hold_down -- the bits of a switch younger than send cycle + 1 s are left alone by design, so the clause is judged
+            # when every connected switch is older; no_flood (alone) -- a switch starts with every port blocked and nothing is promised
+            # before the next change of the adjacency, so between a connect and that change the clause is not judged
+            snap = e.get("snap") or (e if k == "obs" and "bits" in e else None)
+            if snap is not None:
+                if cfg["hold_down"] and any(t - since.get(d, 0) < hold for d in snap["up"]): continue
+                if "snap" not in e and cfg["no_flood"] and not cfg["hold_down"] and not changed: continue
+                hard, lo = self._flood_check([tuple(l) for l in snap["adj"]], {(d, p): b for d, p, b in snap["bits"]},
+                                             snap["up"], sw, "timer" if k == "wake" else "quiet" if k == "obs" else k)
                 if hard: return hard
                 low += lo
         return low[0] if low else None
